@@ -26,12 +26,27 @@ func (e Encoder) AppendTime(dst []byte, t time.Time, format string) []byte {
 	case timeFormatUnixNano:
 		return e.AppendInt64(dst, t.UnixNano())
 	}
-	return append(t.AppendFormat(append(dst, '"'), format), '"')
+	return e.appendTextTime(dst, t, format)
+}
+
+// appendTextTime appends t formatted with a textual layout as a JSON string.
+// The formatted text is used as is unless it holds a byte that JSON requires
+// to be escaped (a zone name or a layout with a quote, a backslash, a control
+// character or a non-ASCII byte), in which case it goes through AppendString.
+func (e Encoder) appendTextTime(dst []byte, t time.Time, format string) []byte {
+	start := len(dst)
+	dst = t.AppendFormat(append(dst, '"'), format)
+	for _, c := range dst[start+1:] {
+		if !noEscapeTable[c] {
+			return e.AppendString(dst[:start], string(dst[start+1:]))
+		}
+	}
+	return append(dst, '"')
 }
 
 // AppendTimes converts the input times with the given format
 // and appends the encoded string list to the input byte slice.
-func (Encoder) AppendTimes(dst []byte, vals []time.Time, format string) []byte {
+func (e Encoder) AppendTimes(dst []byte, vals []time.Time, format string) []byte {
 	switch format {
 	case timeFormatUnix:
 		return appendUnixTimes(dst, vals)
@@ -46,10 +61,10 @@ func (Encoder) AppendTimes(dst []byte, vals []time.Time, format string) []byte {
 		return append(dst, '[', ']')
 	}
 	dst = append(dst, '[')
-	dst = append(vals[0].AppendFormat(append(dst, '"'), format), '"')
+	dst = e.appendTextTime(dst, vals[0], format)
 	if len(vals) > 1 {
 		for _, t := range vals[1:] {
-			dst = append(t.AppendFormat(append(dst, ',', '"'), format), '"')
+			dst = e.appendTextTime(append(dst, ','), t, format)
 		}
 	}
 	dst = append(dst, ']')
